@@ -295,8 +295,15 @@ func KitchenSink(variant int) *Schema {
 		"owner":  col(optional(ref("Root", "strong"))),
 		"marker": col(setOf(bt("string"), 0, -1)),
 	}}
+	// a table without any uuid-typed column (rows are still addressed by _uuid)
+	s.Tables["Plain"] = &Table{IsRoot: true, Indexes: [][]string{{"pname"}}, Columns: map[string]*Column{
+		"pname": col(scalar(bt("string"))),
+		"pval":  col(scalar(bt("integer"))),
+		"ptags": col(setOf(bt("string"), 0, -1)),
+		"pmap":  col(mapOf(bt("string"), bt("integer"))),
+	}}
 	// columns with the same name in several tables (a monitor may select them in one table and not in another)
-	for _, tn := range []string{"Root", "Child", "Grand", "Item"} {
+	for _, tn := range []string{"Root", "Child", "Grand", "Item", "Plain"} {
 		s.Tables[tn].Columns["note"] = col(optional(bt("string")))
 		s.Tables[tn].Columns["rank"] = col(scalar(bt("integer")))
 	}
